@@ -113,9 +113,13 @@ class SolverTrace:
                 ent["status"] = mon._status(self_)
                 return
             mon._o_opt(self_)
-            if getattr(self_, "_fpv_native", False):
-                ent["fault"] = "native"
             ent["status"] = mon._o_status(self_)
+            if getattr(self_, "_fpv_native", False):
+                # a zero time limit is a fault only if HiGHS really stopped early (tiny models are solved in presolve)
+                if ent["status"] not in ("kOptimal", "kInfeasible"):
+                    ent["fault"] = "native"
+                else:
+                    ent["native_no_effect"] = True
             try:
                 ent["ncols"] = self_.solver.numVariables
             except Exception:
